@@ -199,3 +199,28 @@ func VC17_History() {
 	vAssert(len(r1.ControlGenes) == len(r2.ControlGenes), "C17: earlier unrelated work does not change the modules of the outcome")
 	vReach("end")
 }
+
+// earlier unrelated work, second kernel: the draw of a new node's activation type (Options.RandomNodeActivationType,
+// used by mutateAddNode) with a probability list that earlier work used with other values and then tuned in
+// place: equal values must give the same draw as a fresh list.
+func VC17_HistoryRoulette() {
+	mk := func(p0, p2 float64) *neat.Options {
+		return &neat.Options{
+			NodeActivators:     []neatmath.NodeActivationType{neatmath.SigmoidSteepenedActivation, neatmath.TanhActivation, neatmath.GaussianBipolarActivation},
+			NodeActivatorsProb: []float64{p0, 0.25, p2},
+		}
+	}
+	fresh := mk(0.25, 0.5)
+	mark := vRandMark()
+	a1, e1 := fresh.RandomNodeActivationType()
+	// unrelated earlier work: another options object used with other probabilities, which are then tuned in place to
+	// the same values as in the fresh run
+	used := mk(4, 0.125)
+	_, _ = used.RandomNodeActivationType()
+	used.NodeActivatorsProb[0], used.NodeActivatorsProb[2] = 0.25, 0.5
+	vRandRewind(mark)
+	a2, e2 := used.RandomNodeActivationType()
+	vAssert((e1 == nil) == (e2 == nil), "C17: the activation-type draw fails or succeeds identically after unrelated work")
+	vAssert(a1 == a2, "C17: earlier unrelated work does not change the activation type drawn for a new node")
+	vReach("end")
+}
